@@ -16,7 +16,7 @@ def aStmts (t : TRef) (c : String) : Option (String × Option Bool) → List Stm
 
 /-- closed form of the default block -/
 def dStmts (t : TRef) (c : String) (dropD : Bool) (addD : Option String) : List Stmt :=
-  (if dropD then [.mssqlDropDefault t c] else []) ++
+  (if dropD then [.mssqlDropDefault t t c] else []) ++
   (match addD with
    | some d => [.mssqlAddDefault t c d]
    | none => [])
